@@ -30,6 +30,7 @@ import CookModel.Lemmas.RoundtripModes2
 import CookModel.Lemmas.RoundtripModes3
 import CookModel.Lemmas.RoundtripDocModes
 import CookModel.Lemmas.RoundtripDocTight
+import CookModel.Lemmas.RoundtripRefsUnits
 /-
   C01  Printing a recipe as Cooklang and parsing it returns that recipe.
 
@@ -2337,6 +2338,120 @@ example : allBlocks 10 [⟨.metaStart, ['>', '>'], 0⟩, ⟨.word, ['a'], 2⟩, 
   decide
 example : allBlocks 10 [⟨.word, ['x'], 0⟩, ⟨.newline, ['\n'], 1⟩, ⟨.eq, ['='], 2⟩, ⟨.word, ['s'], 3⟩] =
     [[⟨.word, ['x'], 0⟩], [⟨.eq, ['='], 2⟩, ⟨.word, ['s'], 3⟩]] := by decide
+
+
+/-! ### ADVANCED_UNITS together with ingredient references (per event) -/
+
+/-- **What `compatible_unit` accepts.**  The unit loop of `ingredient()` (ADVANCED_UNITS) stays quiet for a pair of
+    units exactly when: both amounts are without unit; or both have one and — when the converter knows both —
+    they measure the same physical quantity, or — when it does not know one of them — they are spelled the
+    same.  (One side with a unit and the other without is reported.) -/
+theorem C01_units_agree_spec (env : Env) (a b : Option Str) :
+    unitsAgreeB env a b = true ↔
+      (a = none ∧ b = none) ∨
+      ∃ x y, a = some x ∧ b = some y ∧
+        ((∃ qa qb, env.findUnit x = some qa ∧ env.findUnit y = some qb ∧ qa = qb) ∨
+         ((env.findUnit x = none ∨ env.findUnit y = none) ∧ x = y)) := by
+  unfold unitsAgreeB compatibleUnit
+  cases a with
+  | none => cases b <;> simp
+  | some x =>
+    cases b with
+    | none => simp
+    | some y =>
+      cases hx : env.findUnit x <;> cases hy : env.findUnit y <;> simp [hx, hy]
+
+/-- **The checks of a reference are quiet under every extension set** when `RefChecksQuietU` holds: no note on
+    the reference; not an amount on both sides when the definition was made outside a step; both amounts text or
+    both not; and — only with ADVANCED_UNITS and only when the reference carries an amount — `unitsQuietB`: the
+    definition `t` and every earlier reference to it (`rf`, its `referenced_from` list) is in the table and, if
+    it carries an amount, agrees in unit with the new reference (`C01_units_agree_spec`).  Then
+    `ingrRefChecks` reports nothing and leaves the state alone.  (`RefChecksQuiet`, the condition of the earlier
+    theorems, is the case "extension off": `rtu_quiet_of_off`.) -/
+theorem C01_reference_checks_quiet_any_ext {α : Type} [Arith α] (env : Env) (input : Str) (li : Loc (PIngredient α))
+    (igr : Ingredient (ScalableValue α)) (t : Nat) (defn : Ingredient (ScalableValue α)) (defLoc : Loc (PIngredient α))
+    (rf : List Nat) (b : Bool) (tg : Option RefTarget) (s : Col α) (hrel : defn.relation = ⟨.definition rf b, tg⟩)
+    (hq : RefChecksQuietU env li igr.quantity defn b t rf s) :
+    ingrRefChecks env input li igr t defn defLoc s = ((), s) :=
+  rtu_ingrRefChecks env input li igr t defn defLoc rf b tg s hrel hq
+
+/-- **An ingredient that becomes a reference, in every mode AND under every extension set** (generalises
+    `C01_reference_event_any_mode`, whose `RefChecksQuiet` asks for ADVANCED_UNITS to be off): same hypotheses
+    with `RefChecksQuietU`, same conclusion — the reference `asReference …` is appended, the definition lists the
+    new index back, the step gets the item, NOTHING is reported. -/
+theorem C01_reference_event_any_ext {α : Type} [Arith α] (env : Env) (input : Str) (li : Loc (PIngredient α))
+    (s : Col α) (items : List Item) (t : Nat) (defn : Ingredient (ScalableValue α)) (defLoc : Loc (PIngredient α))
+    (rf : List Nat) (b : Bool) (tg : Option RefTarget) (hb : s.block = some (.step items))
+    (hinter : li.val.inter = none) (hlock : ∀ q, li.val.quantity = some q → lockOK q.val.value true)
+    (hNEW : li.val.modifiers.val.contains Modifiers.NEW = false)
+    (htreat : li.val.modifiers.val.contains Modifiers.REF = true ∨ s.defineMode = .steps ∨
+      s.duplicateMode = .reference)
+    (hquiet : li.val.modifiers.val.contains Modifiers.REF = true → s.defineMode ≠ .steps ∧ s.duplicateMode = .new)
+    (hfound : sameNameIdx env (s.ingredients.toList.map (fun x => (x.name, x.modifiers))) (ingrOf env li).name = some t)
+    (hdefn : s.ingredients[t]? = some defn) (hloc : s.locIngr[t]? = some defLoc)
+    (hrel : defn.relation = ⟨.definition rf b, tg⟩)
+    (hconf : refConflict li.val.modifiers.val
+      ⟨defn.modifiers.bits &&& (Modifiers.HIDDEN ||| Modifiers.OPT ||| Modifiers.RECIPE)⟩ = 0)
+    (hq : RefChecksQuietU env li (ingrOf env li).quantity defn b t rf s) :
+    (processEvent env input (.ingredient li) s).2 =
+      { s with
+        locIngr := s.locIngr.push li,
+        ingredients := (s.ingredients.setIfInBounds t (backlinked defn rf s.ingredients.size b tg)).push
+          (asReference (ingrOf env li) defn.modifiers t),
+        block := some (.step (items ++ [.ingredient s.ingredients.size])) } :=
+  rtu_proc_ingredient_ref env input li s items t defn defLoc rf b tg hb hinter hlock hNEW htreat hquiet hfound hdefn
+    hloc hrel hconf hq
+
+/-- **The side condition is decidable on the table.**  `ingrTargetOKUB env tbl igr0` (computable: the name has an
+    earlier non-REF definition, the last one; it is a definition; no conflicting modifier; amounts as above; with
+    ADVANCED_UNITS the unit check `unitsQuietB` against the definition and its earlier references) implies, in a
+    state whose ingredient table is `tbl` and whose location array has the same length, every table-side
+    hypothesis of `C01_reference_event_any_ext`. -/
+theorem C01_reference_units_check {α : Type} [Arith α] (env : Env) (li : Loc (PIngredient α))
+    (igr0 : Ingredient (ScalableValue α)) (s : Col α)
+    (hsize : s.locIngr.size = s.ingredients.size) (hnote : li.val.note = none)
+    (h : ingrTargetOKUB env s.ingredients igr0 = true) :
+    ∃ t defn rf b tg,
+      sameNameIdx env (s.ingredients.toList.map (fun x => (x.name, x.modifiers))) igr0.name = some t ∧
+      s.ingredients[t]? = some defn ∧ defn.relation = ⟨.definition rf b, tg⟩ ∧
+      refConflict igr0.modifiers
+        ⟨defn.modifiers.bits &&& (Modifiers.HIDDEN ||| Modifiers.OPT ||| Modifiers.RECIPE)⟩ = 0 ∧
+      RefChecksQuietU env li igr0.quantity defn b t rf s :=
+  rtu_ingrTargetOKUB env li igr0 s hsize hnote h
+
+/-- with ADVANCED_UNITS off the check is the one `yOKB` / `C01_recipe_doc_modes` use (`ingrTargetOKB`) -/
+theorem C01_reference_units_check_off {α : Type} [Arith α] (env : Env) (tbl : Array (Ingredient (ScalableValue α)))
+    (igr0 : Ingredient (ScalableValue α)) (hoff : env.ext.has Gen.EXT_ADVANCED_UNITS = false) :
+    ingrTargetOKUB env tbl igr0 = ingrTargetOKB env tbl igr0 :=
+  rtu_ingrTargetOKUB_off env tbl igr0 hoff
+
+/-! example, ADVANCED_UNITS + MODIFIERS on, a converter that knows `tsp`, `tbsp` (volume, 1) and `g` (mass, 2):
+    after the definition `@salt{=1%tsp}` the reference `@&salt{2%tbsp}` passes the check and is analysed
+    quietly; `@&salt{2%g}` fails it and the code warns `incompatible-units`; `@&salt{2%pinch}` (unknown to the
+    converter, spelled differently) fails as well. -/
+def C01_unitsEnv : Env :=
+  ⟨toyCharSpec, ⟨Gen.EXT_ADVANCED_UNITS ||| Gen.EXT_COMPONENT_MODIFIERS⟩,
+   fun u => if u = "tsp".toList ∨ u = "tbsp".toList then some 1 else if u = "g".toList then some 2 else none,
+   fun _ _ => .ok, fun c => [c], 4⟩
+def C01_exSaltRefQ (u : String) : Loc (PIngredient Rat) :=
+  ⟨⟨⟨⟨Modifiers.REF⟩, ⟨21, 22⟩⟩, none, C01_txt "salt" 22, none,
+    some ⟨⟨⟨⟨.number (.regular 2), ⟨27, 28⟩⟩, none⟩, some (C01_txt u 29)⟩, ⟨27, 34⟩⟩, none⟩, ⟨20, 35⟩⟩
+example : C01_unitsEnv.ext.has Gen.EXT_ADVANCED_UNITS = true := by decide
+example : unitsAgreeB C01_unitsEnv (some "tsp".toList) (some "tbsp".toList) = true ∧
+    unitsAgreeB C01_unitsEnv (some "tsp".toList) (some "g".toList) = false ∧
+    unitsAgreeB C01_unitsEnv (some "tsp".toList) (some "pinch".toList) = false ∧
+    unitsAgreeB C01_unitsEnv (some "pinch".toList) (some "pinch".toList) = true ∧
+    unitsAgreeB C01_unitsEnv (some "tsp".toList) none = false ∧ unitsAgreeB C01_unitsEnv none none = true := by decide
+example : ingrTargetOKUB C01_unitsEnv C01_exAfterDef.ingredients (ingrOf C01_unitsEnv (C01_exSaltRefQ "tbsp")) = true ∧
+    ingrTargetOKUB C01_unitsEnv C01_exAfterDef.ingredients (ingrOf C01_unitsEnv (C01_exSaltRefQ "g")) = false ∧
+    ingrTargetOKUB C01_unitsEnv C01_exAfterDef.ingredients (ingrOf C01_unitsEnv (C01_exSaltRefQ "pinch")) = false ∧
+    ingrTargetOKUB C01_unitsEnv C01_exAfterDef.ingredients (ingrOf C01_unitsEnv C01_exSaltRef) = true := by decide
+example : C01_exAfterDef.locIngr.size = C01_exAfterDef.ingredients.size ∧ (C01_exSaltRefQ "tbsp").val.note = none :=
+  ⟨rfl, rfl⟩
+/-- the model of the real code agrees: quiet for `tbsp`, one warning for `g` -/
+example : ((processEvent C01_unitsEnv [] (.ingredient (C01_exSaltRefQ "tbsp")) C01_exAfterDef).2.diags.toList.map (·.kind),
+    (processEvent C01_unitsEnv [] (.ingredient (C01_exSaltRefQ "g")) C01_exAfterDef).2.diags.toList.map (·.kind)) =
+    ([], ["incompatible-units"]) := by rfl
 
 
 end Cook
